@@ -99,27 +99,13 @@ func (api *API) mapDecodeBasedOnType(ctx context.Context, mapVal any, value refl
 			sliceValue := sliceFromArray(value.Elem())
 			sliceValueType := sliceValue.Type()
 			if sliceValueType.AssignableTo(bytesType) {
-				innerTS, ok := api.typeSettingsRegistry.GetByType(valueType)
-				if !ok {
-					return ierrors.Errorf("missing type settings for interface %s", valueType)
-				}
+				// the encoder uses the registered type settings of the pointer type (if any): with an object code
+				// the array is written as an object, without one (or without any settings) as a bare hex string.
+				innerTS, _ := api.typeSettingsRegistry.GetByType(valueType)
 
-				fieldKey := keyDefaultSliceArray
-				if innerTS.fieldKey != nil {
-					fieldKey = *innerTS.fieldKey
-				}
-
-				m, ok := mapVal.(map[string]any)
-				if !ok {
-					return ierrors.Errorf("non map[string]any value in map when decoding an array of bytes, got %T instead", mapVal)
-				}
-				fieldValStr, ok := m[fieldKey].(string)
-				if !ok {
-					return ierrors.Errorf("non string value for key %s in map when decoding an array of bytes, got %T instead", fieldKey, m[fieldKey])
-				}
-				byteSlice, err := DecodeHex(fieldValStr)
+				byteSlice, err := mapDecodeBytes(mapVal, innerTS)
 				if err != nil {
-					return ierrors.Wrap(err, "failed to read byte slice from map")
+					return ierrors.Wrap(err, "failed to read byte array from map")
 				}
 
 				if opts.validation {
